@@ -289,3 +289,13 @@ CHECKS["C30"] = {
     "level_note": "process-level, real time: every verdict needs a positive observation (datagram seen, broker packet, exit status); watchdog expiry is inconclusive",
     "design_ref": "3/C30",
 }
+
+CHECKS["C31"] = {
+    "level": "exploration",
+    "exhaustive": True,
+    "max_inconclusive_frac": 0.2,
+    "technique": "runtime monitoring at process level: every flag/environment combination of the credential, DTLS and insecure options run through the three built binaries on loopback, observing exit status, bound port and first datagrams; plus a virtual-time wire monitor of the client library's CONNECT/AUTH pairing under retransmission",
+    "level_text": "The whole option space (336 combinations over three tools, flags and environment variables incl. explicit 'false' values) is executed; the refusal rule is decided from positive observations (non-zero exit and nothing sent / port bound / first datagrams are CONNECT+AUTH or a DTLS handshake record). 48 library histories with retransmitted CONNECTs check that AUTH follows every CONNECT transmission exactly when a user is configured.",
+    "level_note": "exhaustive for the listed option space; DTLS is observed only up to the first handshake record; process runs use real time with watchdogs (expiry is inconclusive)",
+    "design_ref": "3/C31",
+}
